@@ -140,6 +140,7 @@ static int handle_core(char **f, int nf) {
 #include "u_formats.h"
 #include "u_filter.h"
 #include "u_block.h"
+#include "u_snappy.h"
 
 static void handle(char *line) {
   static char *f[MAXF]; int nf = split_fields(line, f, MAXF);
@@ -147,6 +148,7 @@ static void handle(char *line) {
   if (handle_formats(f, nf)) return;
   if (handle_filter(f, nf)) return;
   if (handle_block(f, nf)) return;
+  if (handle_snappy(f, nf)) return;
   printf("bad-op");
 }
 
